@@ -27,4 +27,6 @@ print("time", round(time.time() - t, 2), "paths", r["paths"], r.get("ended"), "u
 for o in r["obligations"]:
     if o["verdict"] != "unsat" or o["s"] > 1:
         print(o["name"], o["verdict"], o["backend"], o["s"], "closed" if o["closed"] else "cut", o.get("note", "")[:100])
+        if o.get("model") and len(sys.argv) > 5:
+            print("   MODEL:", o["model"][:1500].replace("\n", " "))
 print("obligations", len(r["obligations"]), "solver_s", round(sum(o["s"] for o in r["obligations"]), 2))
